@@ -260,6 +260,11 @@ func checkC12(reg *Registry, c interpCase) pbt.Result {
 			in = applyEdits(in, c.Edit)
 		}
 	}
+	if len(in) > 128<<10 {
+		// the helper process runs under an address-space limit and the interpreter's value tree is two orders of
+		// magnitude larger than the bytes: its death on such an input is the harness' limit, not a verdict
+		return pbt.Result{Classes: []string{"input-too-large-for-the-helper"}}
+	}
 	dec := Create(it, c.Bytes)
 	gRest, gErr := gRead(dec, c.Format, in)
 	if gErr != nil && strings.Contains(gErr.Error(), "panicked") {
@@ -337,6 +342,11 @@ func checkC12(reg *Registry, c interpCase) pbt.Result {
 		ng, ok1 := norm(gw)
 		ni, ok2 := norm(iw)
 		if ok1 && ok2 && eq(ng, ni) && HasMap(Create(it, false)) {
+			if !c.Bytes && len(gw) == len(iw) && eq(ng, gw) {
+				// the map-backed variant writes its entries sorted by key and so does the interpreter: with the same
+				// entries on both sides (equal lengths, equal after normalisation) only the order can differ
+				return pbt.Fail("%s: both accept %s input %s and hold the same dictionary entries, but write them in different orders: %s\n  generated   %s\n  interpreter %s", c.Item, c.Format, hexHead(in), diffAt(gw, iw), hexHead(gw), hexHead(iw))
+			}
 			return pbt.Result{NonTrivial: len(in) >= 8, Classes: append(cls, "both-accepted", "dictionary-recanonicalised")}
 		}
 		// duplicate keys: which entry survives is unspecified (the generated map keeps the last, the interpreter sorts
